@@ -160,7 +160,10 @@ pub fn gen_plain(dna: &mut Dna, size_weights: &[u32; 4]) -> Vec<u8> {
 pub fn gen_plain_sized(dna: &mut Dna, target: usize) -> Vec<u8> {
     let mut out = Vec::with_capacity(target);
     // flavour: which segment kinds are allowed; 0 -> all
-    let flavour = dna.weighted(&[30, 25, 15, 10, 10, 10]);
+    let flavour = dna.weighted(&[28, 23, 14, 9, 9, 9, 8]);
+    if flavour == 6 {
+        return gen_archive_like(dna, target);
+    }
     let kinds: &[usize] = match flavour {
         0 => &[0, 1, 2, 3, 4, 5, 6, 7],
         1 => &[2, 2, 2, 3, 7],    // text-like
@@ -184,6 +187,47 @@ pub fn gen_plain_sized(dna: &mut Dna, target: usize) -> Vec<u8> {
             let k = if first { first_kind } else { kinds[mix.below(kinds.len())] };
             first = false;
             append_segment(&mut out, part_target, k, &mut mix);
+        }
+    }
+    out.truncate(target);
+    out
+}
+
+/// "archive-like": compressible records, then an incompressible blob (which real compressors
+/// store), then text that repeats fragments of the blob (references into the stored region).
+/// When the target allows it the blob starts beyond 32 KiB, i.e. outside the first window.
+fn gen_archive_like(dna: &mut Dna, target: usize) -> Vec<u8> {
+    let mut out = Vec::with_capacity(target);
+    let mut mix = Mix::new(dna.u64());
+    let head = if target > 44 * 1024 && dna.chance(70) {
+        mix.range(33 * 1024, target * 3 / 4)
+    } else {
+        mix.range(target / 8, target / 2 + 1)
+    };
+    let blob = mix.range((target / 20).max(1), (target / 4).max(2)).min(20 * 1024);
+    while out.len() < head.min(target) {
+        let k = [2usize, 2, 3, 7][mix.below(4)];
+        append_segment(&mut out, head.min(target), k, &mut mix);
+    }
+    let blob_start = out.len();
+    for _ in 0..blob.min(target.saturating_sub(out.len())) {
+        out.push(mix.u8());
+    }
+    let blob_end = out.len();
+    while out.len() < target {
+        if blob_end > blob_start + 8 && mix.chance(55) {
+            // a fragment of the blob
+            let l = mix.range(4, 64.min(blob_end - blob_start));
+            let s = mix.range(blob_start, blob_end - l);
+            for i in 0..l {
+                if out.len() < target {
+                    let b = out[s + i];
+                    out.push(b);
+                }
+            }
+        } else {
+            let t = (out.len() + mix.range(4, 200)).min(target);
+            append_segment(&mut out, t, 2, &mut mix);
         }
     }
     out.truncate(target);
